@@ -18,10 +18,11 @@ What is checked
       bound is visited) and on long random walks, compared with the model after every action (states,
       counters, journals keys, every frame in flight, deliveries, accepted sends) and after settling, and
       decided by an independent oracle written from the property text.
-The theorems (Props/C07.v) cover the single-break family for all n, k in each direction separately, and the A -> B
-family followed by any number of further breaks during the retransmission (C07_repeated_breaks); general
-interleavings (traffic in flight in both directions at a break, events during the Logon exchange, breaks at other
-moments of the recovery) are explored only.  The model describes the code WITH the D10 and D12 repairs.
+The theorems (Props/C07.v) cover, for all sizes: the single-break family in each direction and in BOTH directions at
+once (C07_single_break_both), the A -> B family followed by any number of further breaks during the retransmission
+(C07_repeated_breaks), a break inside a send (C07_failed_write), a break during the first Logon exchange
+(C07_logon_cut); general interleavings (sends and deliveries interleaved with the recovery, further breaks with
+traffic in both directions, breaks at other moments of the recovery) are explored only.  The model describes the code WITH the D10 and D12 repairs.
 
 Schedule syntax: words  sA sB (application send)  fA fB (send on a dead transport, then break)
                         dA dB (deliver next item towards A / B)  BRK  REC
@@ -658,6 +659,15 @@ WITNESSES = [
     "REC dB dA sA sA sA dB BRK REC",              # single-break family n=3 k=2 (C07_single_break)
     "REC dB dA sB sB sB dA BRK REC",              # mirror family n=3 k=2 (C07_single_break_B_to_A)
     "REC dB dA sA sB BRK REC",                    # both directions in flight
+    # C07_single_break_both_instance: A sends 3, B sends 2; two of A's and one of B's in flight (two ResendRequests cross)
+    "REC dB dA sA sA sA sB sB dB dA BRK REC",
+    "REC dB dA sA sA sB sB dB dB BRK REC",        # ... only A misses something
+    "REC dB dA sA sA sB sB dA dA BRK REC",        # ... only B misses something
+    # C07_repeated_breaks_with_B_traffic_instance: A sends 4, B sends 2 (delivered); three more breaks after 1, 0, 1 retransmissions
+    "REC dB dA sA sA sA sA sB sB dB dA dA BRK REC dB dA dA dB BRK REC dB dA dA BRK REC dB dA dA dB BRK REC",
+    # C07_logon_cut: the first Logon exchange is cut (Logon in flight / Logon reply in flight), repaired, then traffic
+    "REC BRK REC dB dA dA dB sA sA dB dB",
+    "REC dB BRK REC dB dA dB dA sA sA dB dB",
     # C07_repeated_breaks_instance: n = 5, four in flight, then breaks after 1, 0 and 2 retransmissions
     "REC dB dA sA sA sA sA sA dB BRK REC dB dA dA dB BRK REC dB dA dA BRK REC dB dA dA dB dB BRK REC",
     "REC dB dA sA fA REC",                        # write error variant: m2 journaled, write raises, recovered (C07_failed_write)
